@@ -136,6 +136,16 @@ PALETTE = {"gt2": _gt2, "le3": _le3, "ne1": _ne1, "pos": _pos,
            "gt2_int": _gt2_int, "le3_int": _le3_int, "ne1_int": _ne1_int, "pos_int": _pos_int}
 
 
+def _near_best(v):
+    """A condition on the criterion as a whole: within 2 of its best value (it cannot be evaluated on an empty
+    criterion - the library then refuses, and must go on refusing)."""
+    return v >= v.max() - 2
+
+
+# functions that only C20 uses (they are not mirrored by the Coq palette)
+EXTRA_FUNCS = {"near_best": _near_best}
+
+
 def build(cfg, conditions=None):
     cls = find_class(cfg["cls"])
     p = dict(cfg["params"])
@@ -144,7 +154,7 @@ def build(cfg, conditions=None):
     if cfg["cls"] in FILTERS and cfg["cls"] != "FilterNonDominated":
         conds = conditions if conditions is not None else cfg.get("conditions", [])
         if cfg["cls"] == "Filter":
-            d = {c: PALETTE[v] for c, v in conds}
+            d = {c: (PALETTE.get(v) or EXTRA_FUNCS[v]) for c, v in conds}
         elif cfg["cls"] in ("FilterIn", "FilterNotIn"):
             # the collection of admitted values, in any of the container types a caller may hold it in
             box = {"list": list, "tuple": tuple, "set": set, "frozenset": frozenset,
